@@ -1118,6 +1118,51 @@ Proof.
     apply (IH _ vx' (sizedv_aset n vx b _ S ltac:(rewrite length_relabel_sv; apply (S b arr A))) H).
 Qed.
 
+(* ---------- index and mapping ingest: "data consistent with the voxels", made precise ---------- *)
+(* POST index/<l>: the posted index holds, per block and supervoxel, the stored voxel count of the
+   supervoxels mapped to l (an empty post deletes: then no stored voxel may map to l). *)
+Theorem consistent_putindex st l oi :
+  Consistent st -> l <> 0 ->
+  match oi with
+  | Some i => Wf i /\ i <> [] /\
+              forall b s, cnt i b s = if negb (s =? 0) && (mapped (f_map st) s =? l) then vcount st b s else 0
+  | None => forall b s, s <> 0 -> mapped (f_map st) s = l -> vcount st b s = 0
+  end ->
+  Consistent {| f_vox := f_vox st; f_map := f_map st; f_idx := put_idx (f_idx st) l oi |}.
+Proof.
+  intros C Hl H. split.
+  - intros l' b s. unfold icnt, get_idx; cbn [f_idx f_map]. rewrite aget_put_idx.
+    change (vcount {| f_vox := f_vox st; f_map := f_map st; f_idx := put_idx (f_idx st) l oi |} b s) with (vcount st b s).
+    destruct (l' =? l) eqn:E; [|apply (c_cnt st C)]. apply N.eqb_eq in E; subst l'.
+    destruct oi as [i|].
+    + destruct H as (_ & _ & Hc). apply Hc.
+    + destruct (s =? 0) eqn:E0; [reflexivity|]. cbn [negb andb].
+      destruct (mapped (f_map st) s =? l) eqn:Em; [|reflexivity].
+      apply N.eqb_neq in E0. apply N.eqb_eq in Em. symmetry. now apply H.
+  - unfold get_idx; cbn [f_idx]. rewrite aget_put_idx, (N_eqb_neq 0 l) by congruence. apply (c_zero st C).
+  - intros l' i'. unfold get_idx; cbn [f_idx]. rewrite aget_put_idx. destruct (l' =? l); [|apply (c_wf st C)].
+    destruct oi as [i|]; [|discriminate]. intro E; inversion E; subst. destruct H as (W & Hn & _). now split.
+Qed.
+
+(* POST mappings: every supervoxel that has stored voxels keeps its body (the documented use:
+   mappings of supervoxels are loaded before, or together with, the indices that agree with them) *)
+Theorem consistent_putmappings st pairs :
+  Consistent st ->
+  let fm' := fold_left (fun m p => aset N.eqb (fst p) (snd p) m) pairs (f_map st) in
+  (forall s b, 0 < vcount st b s -> mapped fm' s = mapped (f_map st) s) ->
+  Consistent {| f_vox := f_vox st; f_map := fm'; f_idx := f_idx st |}.
+Proof.
+  intros C fm' H. split.
+  - intros l b s. unfold icnt, get_idx; cbn [f_idx f_map].
+    change (vcount {| f_vox := f_vox st; f_map := fm'; f_idx := f_idx st |} b s) with (vcount st b s).
+    pose proof (c_cnt st C l b s) as E. unfold icnt, get_idx in E. rewrite E.
+    destruct (N.eq_dec (vcount st b s) 0) as [Z|Z].
+    + rewrite Z. now ifs.
+    + rewrite (H s b) by lia. reflexivity.
+  - apply (c_zero st C).
+  - apply (c_wf st C).
+Qed.
+
 (* ---------- the documented contracts, as guards ---------- *)
 Definition live_blocks_ok (st : fstate) (blocks : list (N * list N)) : Prop :=
   forall b a s, In (b, a) blocks -> 0 < occ a s -> s <> 0 -> mapped (f_map st) s <> 0.
@@ -1142,7 +1187,19 @@ Definition op_guard (fx : fixes) (n : nat) (st : fstate) (o : op) : Prop :=
     sv <> 0 /\ fresh_sv st split /\ fresh_sv st remain /\ split <> remain /\ split <> sv /\ remain <> sv /\
     (forall b k, aget N.eqb b rl = Some k -> 0 < k < 2 ^ 32)
   | ORenumber a b => fx_renumber fx = true /\ b <> 0
-  | OStore _ | OPutIndex _ _ | OPutMappings _ | OSplit _ _ _ _ => False
+  | OPutIndex l oi =>
+    (* POST index / indices: the posted index is the scan of the stored voxels mapped to l *)
+    l <> 0 /\
+    match oi with
+    | Some i => Wf i /\ i <> [] /\
+                forall b s, cnt i b s = if negb (s =? 0) && (mapped (f_map st) s =? l) then vcount st b s else 0
+    | None => forall b s, s <> 0 -> mapped (f_map st) s = l -> vcount st b s = 0
+    end
+  | OPutMappings pairs =>
+    (* POST mappings: supervoxels that have stored voxels keep their body *)
+    forall s b, 0 < vcount st b s ->
+      mapped (fold_left (fun m p => aset N.eqb (fst p) (snd p) m) pairs (f_map st)) s = mapped (f_map st) s
+  | OStore _ | OSplit _ _ _ _ => False
   end.
 
 Definition Inv (n : nat) (st : fstate) : Prop := Consistent st /\ Sized n st.
@@ -1165,6 +1222,8 @@ Proof.
       * discriminate.
       * intros b a Hin. now rewrite (Hb b a Hin).
     + unfold Sized, f_write; cbn [f_vox]. apply sizedv_put_blocks; [exact S | exact Hb].
+  - destruct G as [Hl G]. apply Ok_inj in H; subst st'. split; [now apply consistent_putindex | exact S].
+  - apply Ok_inj in H; subst st'. split; [now apply consistent_putmappings | exact S].
   - split; [eapply consistent_merge; eauto|].
     unfold f_merge in H. destruct (nodupN merged); [discriminate|].
     destruct (fx_reject fx && memN target (n0 :: l)); [discriminate|].
@@ -1192,17 +1251,216 @@ Proof.
     destruct (get_idx st old); [|discriminate]. apply Ok_inj in H; subst. exact S.
 Qed.
 
-(* The operations not closed: block storage without indexing, index and mapping ingest (their
-   contract is that the client's data agrees with the voxels) and the split of a body
-   (SplitLabels, switched off by default).  Missing part, explicit: that the state they produce
-   is consistent. *)
+(* The operations not closed as single steps:
+   - OStore (POST ingest-supervoxels) stores voxels without indexing, so the state after it is
+     inconsistent by design until the indices follow; the whole bulk load is closed below as a run
+     (offline_ingest_consistent).
+   - OSplit (SplitLabels; the /split route is switched off in the server).  Missing, explicit:
+     (a) the pointwise reading of split_index, the analogue of split_sv_index_spec:
+         cnt ridx b s and cnt sidx b s in terms of cnt idx, the block_splits table and sm;
+     (b) occ (relabel_split arr mask sm) s in terms of occ arr and the masked counts (the analogue
+         of occ_relabel_sv), and that block_splits lists exactly these masked counts;
+     (c) the guard that split/remain ids of sm are pairwise distinct and fresh_sv.
+     split_index_conserves (no voxel lost between ridx and sidx) is proved.
+   Hypothesis, explicit: that the state these two produce is consistent. *)
 Theorem consistent_step_partial fx n st o st' :
   N.of_nat n < 2 ^ 31 -> Inv n st ->
   match o with
-  | OStore _ | OPutIndex _ _ | OPutMappings _ | OSplit _ _ _ _ => Inv n st'
+  | OStore _ | OSplit _ _ _ _ => Inv n st'
   | _ => op_guard fx n st o
   end ->
   fstep fx (mapped (f_map st)) st o = Ok st' -> Inv n st'.
 Proof.
   intros Hn I G H. destruct o; try exact G; eapply consistent_step; eauto.
+Qed.
+
+(* ---------- the bulk load: scanned indices ---------- *)
+(* the state an offline ingest produces when the client posts exactly the scan *)
+Lemma aget_scan_index vx fm l : NoDup (map fst vx) -> forall b s,
+  aget key_eqb (b, s) (scan_index vx fm l) =
+  match aget N.eqb b vx with
+  | Some arr => if negb (s =? 0) && (mapped fm s =? l) && (0 <? occ arr s) then Some (occ arr s) else None
+  | None => None
+  end.
+Proof.
+  unfold scan_index. induction vx as [|[b0 arr] r IH]; intros ND b s; simpl; [reflexivity|].
+  inversion ND as [|? ? Hn ND']; subst. rewrite (aget_app key_eqb), (IH ND').
+  set (P := fun x => negb (x =? 0) && (mapped fm x =? l)).
+  assert (forall L, NoDup L ->
+            aget key_eqb (b, s) (map (fun x => ((b0, x), countN arr x)) (filter P L)) =
+            if (b =? b0) && P s && memN s L then Some (occ arr s) else None) as A.
+  { induction L as [|x t IHt]; intro NDL; simpl; [now rewrite andb_false_r|].
+    inversion NDL as [|? ? Hx NDt]; subst. destruct (P x) eqn:Px; simpl.
+    - unfold key_eqb at 1; simpl. destruct (b =? b0) eqn:Eb; simpl; [|exact (IHt NDt)].
+      destruct (s =? x) eqn:Es.
+      + apply N.eqb_eq in Es; subst x. rewrite Px. reflexivity.
+      + rewrite (IHt NDt). reflexivity.
+    - rewrite (IHt NDt). destruct (s =? x) eqn:Es; [|reflexivity].
+      apply N.eqb_eq in Es; subst x. rewrite Px. simpl. now rewrite !andb_false_r.
+  }
+  rewrite (A (nodupN arr) (nodupN_NoDup arr)). fold (P s).
+  destruct (b =? b0) eqn:Eb.
+  - apply N.eqb_eq in Eb; subst b0. simpl.
+    assert (memN s (nodupN arr) = (0 <? occ arr s)) as M.
+    { destruct (0 <? occ arr s) eqn:Z.
+      - apply N.ltb_lt in Z. apply memN_In. apply (proj2 (nodupN_In _ _)).
+        clear - Z. induction arr as [|x t IHt]; [rewrite occ_nil in Z; lia|]. rewrite occ_cons in Z.
+        destruct (x =? s) eqn:E; [apply N.eqb_eq in E; subst; now left | right; auto].
+      - apply N.ltb_ge in Z. destruct (memN s (nodupN arr)) eqn:M; [|reflexivity].
+        apply memN_In in M. apply (proj1 (nodupN_In _ _)) in M. exfalso.
+        clear - Z M. induction arr as [|x t IHt]; [destruct M|]. rewrite occ_cons in Z.
+        destruct M as [->|M]; [rewrite N.eqb_refl in Z; lia|]. destruct (x =? s); [lia | auto]. }
+    rewrite M. destruct (P s && (0 <? occ arr s)); [reflexivity|].
+    now rewrite (proj2 (aget_None_notin N.eqb N.eqb_eq b r) Hn).
+  - simpl. reflexivity.
+Qed.
+
+Lemma cnt_scan_index vx fm l b s : NoDup (map fst vx) ->
+  cnt (scan_index vx fm l) b s =
+  if negb (s =? 0) && (mapped fm s =? l)
+  then match aget N.eqb b vx with Some arr => occ arr s | None => 0 end else 0.
+Proof.
+  intro ND. unfold cnt. rewrite (aget_scan_index vx fm l ND b s).
+  destruct (aget N.eqb b vx) as [arr|]; [|now ifs].
+  destruct (negb (s =? 0) && (mapped fm s =? l)); cbn [andb]; [|reflexivity].
+  destruct (0 <? occ arr s) eqn:Z; [reflexivity | apply N.ltb_ge in Z; lia].
+Qed.
+
+Lemma in_nodupN_occ arr s : In s (nodupN arr) -> 0 < occ arr s.
+Proof.
+  intro H. apply (proj1 (nodupN_In _ _)) in H. induction arr as [|x t IH]; [destruct H|].
+  rewrite occ_cons. destruct H as [->|H]; [rewrite N.eqb_refl; lia | specialize (IH H); destruct (x =? s); lia].
+Qed.
+
+Lemma wf_scan_index vx fm l : NoDup (map fst vx) -> Wf (scan_index vx fm l).
+Proof.
+  intro ND. unfold scan_index. split.
+  - unfold keys_of. induction vx as [|[b arr] r IH]; simpl; [constructor|].
+    inversion ND as [|? ? Hn ND']; subst. rewrite map_app. apply NoDup_app_intro.
+    + rewrite map_map. simpl.
+      pose proof (nodupN_NoDup arr) as Na.
+      induction (nodupN arr) as [|x t IHt]; simpl; [constructor|]. inversion Na; subst.
+      destruct (negb (x =? 0) && (mapped fm x =? l)); simpl; [|auto]. constructor; [|auto].
+      intro H. apply in_map_iff in H as [y [E Hy]]. inversion E; subst. apply filter_In in Hy as [Hy _]. contradiction.
+    + now apply IH.
+    + intros [b' s] H1 H2. apply in_map_iff in H1 as [[k c] [E H1]]. simpl in E; subst k.
+      apply in_map_iff in H1 as [s' [E _]]. inversion E; subst.
+      apply in_map_iff in H2 as [[k c2] [E2 H2]]. simpl in E2; subst k.
+      apply in_flat_map in H2 as [[b2 arr2] [Hin H2]]. simpl in H2.
+      apply in_map_iff in H2 as [s2 [E2 _]]. inversion E2; subst.
+      apply Hn. apply in_map_iff. now exists (b', arr2).
+  - apply Forall_forall. intros e He. apply in_flat_map in He as [[b arr] [_ He]]. simpl in He.
+    apply in_map_iff in He as [s [E Hs]]. subst e. simpl. apply filter_In in Hs as [Hs _].
+    change (countN arr s) with (occ arr s). now apply in_nodupN_occ.
+Qed.
+
+Lemma aget_map_fun {V} (f : N -> V) L l :
+  aget N.eqb l (map (fun x => (x, f x)) L) = if memN l L then Some (f l) else None.
+Proof.
+  induction L as [|x t IH]; simpl; [reflexivity|]. destruct (l =? x) eqn:E; simpl.
+  - apply N.eqb_eq in E; now subst.
+  - exact IH.
+Qed.
+
+Lemma in_scan_bodies vx fm l :
+  In l (scan_bodies vx fm) <-> exists b arr s, In (b, arr) vx /\ In s arr /\ s <> 0 /\ mapped fm s = l.
+Proof.
+  unfold scan_bodies. rewrite nodupN_In, in_flat_map. split.
+  - intros [[b arr] [Hin H]]. simpl in H. apply in_map_iff in H as [s [E Hs]].
+    apply filter_In in Hs as [Hs H0]. apply negb_true_iff in H0. apply N.eqb_neq in H0.
+    exists b, arr, s. repeat split; auto. now apply (proj1 (nodupN_In _ _)).
+  - intros (b & arr & s & Hin & Hs & H0 & Hm). exists (b, arr). split; [exact Hin|]. simpl.
+    apply in_map_iff. exists s. split; [exact Hm|]. apply filter_In. split.
+    + now apply (proj2 (nodupN_In _ _)).
+    + apply negb_true_iff. now apply N.eqb_neq.
+Qed.
+
+(* a state whose index table is exactly what a scan of its voxels and mapping gives is consistent,
+   for every layout of the voxels. *)
+Theorem scanned_consistent st :
+  NoDup (map fst (f_vox st)) ->
+  (forall b arr s, In (b, arr) (f_vox st) -> In s arr -> s <> 0 -> mapped (f_map st) s <> 0) ->
+  (forall l, get_idx st l = if memN l (scan_bodies (f_vox st) (f_map st))
+                            then Some (scan_index (f_vox st) (f_map st) l) else None) ->
+  Consistent st.
+Proof.
+  destruct st as [vx fm ix]; cbn [f_vox f_map]. intros ND Hlive G.
+  split.
+  - intros l b s. unfold icnt. rewrite G. unfold vcount; cbn [f_vox f_map].
+    destruct (memN l (scan_bodies vx fm)) eqn:M.
+    + apply (cnt_scan_index vx fm l b s ND).
+    + destruct (negb (s =? 0) && (mapped fm s =? l)) eqn:Cond; [|reflexivity].
+      apply andb_true_iff in Cond as [H0 Hm]. apply negb_true_iff in H0. apply N.eqb_neq in H0. apply N.eqb_eq in Hm.
+      destruct (aget N.eqb b vx) as [arr|] eqn:A; [|reflexivity].
+      destruct (N.eq_dec (countN arr s) 0) as [Z|Z]; [now rewrite Z|]. exfalso.
+      assert (memN l (scan_bodies vx fm) = true) as X; [|congruence].
+      apply memN_In. apply in_scan_bodies. exists b, arr, s. split; [now apply (aget_Some_in N.eqb N.eqb_eq)|].
+      split; [|now split]. change (countN arr s) with (occ arr s) in Z.
+      clear - Z. induction arr as [|x t IH]; [rewrite occ_nil in Z; lia|]. rewrite occ_cons in Z.
+      destruct (x =? s) eqn:E; [apply N.eqb_eq in E; subst; now left | right; auto].
+  - rewrite G. destruct (memN 0 (scan_bodies vx fm)) eqn:M; [|reflexivity].
+    apply memN_In in M. apply in_scan_bodies in M as (b & arr & s & Hin & Hs & H0 & Hm).
+    exfalso. now apply (Hlive b arr s Hin Hs H0).
+  - intros l i. rewrite G. destruct (memN l (scan_bodies vx fm)) eqn:M; [|discriminate].
+    intro E; inversion E; subst i. split; [now apply wf_scan_index|].
+    apply memN_In in M. apply in_scan_bodies in M as (b & arr & s & Hin & Hs & H0 & Hm).
+    intro Hnil. pose proof (cnt_scan_index vx fm l b s ND) as Cc. rewrite Hnil in Cc.
+    rewrite Hm, N.eqb_refl, (N_eqb_neq s 0 H0) in Cc. cbn [negb andb] in Cc.
+    rewrite (in_aget_nodup N.eqb N.eqb_eq b arr vx ND Hin) in Cc. unfold cnt in Cc; simpl in Cc.
+    assert (0 < occ arr s) by (apply in_nodupN_occ; now apply (proj2 (nodupN_In _ _))). lia.
+Qed.
+
+Theorem offline_consistent vx fm :
+  NoDup (map fst vx) ->
+  (forall b arr s, In (b, arr) vx -> In s arr -> s <> 0 -> mapped fm s <> 0) ->
+  Consistent (offline_state vx fm).
+Proof.
+  intros ND Hlive. apply scanned_consistent; cbn [offline_state f_vox f_map]; auto.
+  intro l. unfold get_idx, offline_state; cbn [f_idx]. apply (aget_map_fun (scan_index vx fm)).
+Qed.
+
+(* ---------- the bulk load as a run of the machine ---------- *)
+Lemma nodup_put_blocks blocks : forall vx, NoDup (map fst vx) -> NoDup (map fst (put_blocks vx blocks)).
+Proof.
+  unfold put_blocks. induction blocks as [|ba r IH]; intros vx ND; simpl; [exact ND|].
+  apply IH. now apply (nodup_aset N.eqb N.eqb_eq).
+Qed.
+
+Lemma aget_fold_aset_fun {V} (f : N -> V) L : forall ix l,
+  aget N.eqb l (fold_left (fun ix x => aset N.eqb x (f x) ix) L ix) =
+  if memN l L then Some (f l) else aget N.eqb l ix.
+Proof.
+  induction L as [|x t IH]; intros ix l; simpl; [reflexivity|]. rewrite IH, aget_aset_N.
+  destruct (l =? x) eqn:E; simpl.
+  - apply N.eqb_eq in E; subst. now destruct (memN x t).
+  - reflexivity.
+Qed.
+
+Lemma fsteps_putindex fx (f : N -> index) L : forall st,
+  fsteps fx st (map (fun l => OPutIndex l (Some (f l))) L) =
+  Ok {| f_vox := f_vox st; f_map := f_map st;
+        f_idx := fold_left (fun ix x => aset N.eqb x (f x) ix) L (f_idx st) |}.
+Proof.
+  induction L as [|x t IH]; intro st; simpl; [now destruct st|].
+  rewrite IH. reflexivity.
+Qed.
+
+(* POST ingest-supervoxels of the blocks, POST mappings of the agglomeration, POST indices of the
+   scanned indices, onto an empty instance: accepted, and the state reached is consistent -- the
+   only condition is that no stored supervoxel is mapped to body 0. *)
+Theorem offline_ingest_consistent fx blocks pairs :
+  let vx := put_blocks [] blocks in
+  let fm := fold_left (fun m p => aset N.eqb (fst p) (snd p) m) pairs [] in
+  (forall b arr s, In (b, arr) vx -> In s arr -> s <> 0 -> mapped fm s <> 0) ->
+  exists st', fsteps fx f_empty (offline_ops blocks pairs) = Ok st' /\
+              f_vox st' = vx /\ f_map st' = fm /\ Consistent st'.
+Proof.
+  intros vx fm Hlive. unfold offline_ops. fold vx fm.
+  cbn [fsteps fstep res_bind f_empty f_vox f_map f_idx]. fold vx fm.
+  rewrite fsteps_putindex. cbn [f_vox f_map f_idx].
+  eexists. split; [reflexivity|]. split; [reflexivity|]. split; [reflexivity|].
+  apply scanned_consistent; cbn [f_vox f_map].
+  - apply nodup_put_blocks. constructor.
+  - exact Hlive.
+  - intro l. unfold get_idx; cbn [f_idx]. rewrite aget_fold_aset_fun. reflexivity.
 Qed.
